@@ -82,7 +82,8 @@ EXPECTED_BRANCHES_BASE = (['steps/{}/{}'.format(f, n) for f in ('list', 'tuple',
 
 def EXPECTED_BRANCHES_ALL(ctx):
     return (list(EXPECTED_BRANCHES_BASE) + direct_branches() + sorted(set(e[0] for e in edge_cases()))
-            + list(GROUP_BRANCHES) + route_branches() + ['route/model-compared', 'route/moreau-bridge'])
+            + list(GROUP_BRANCHES) + route_branches() + ['route/model-compared', 'route/moreau-bridge']
+            + own_branches())
 MODEL_TOKENS = {'l1', 'l1l2', 'l2', 'l2sq', 'ccl1', 'ccl1l2', 'ccl2sq', 'box', 'const', 'izero', 'linf',
                 'cclinf', 'simplex', 'sumc', 'huber', 'huberg', 'klcc', 'trans', 'argscale', 'lscale', 'quad',
                 'conj', 'sep', 'nil', 'comp'}
@@ -1822,6 +1823,7 @@ def run(ctx, deep=False):
     run_malformed(ctx)
     run_group_objective(ctx)
     run_routes(ctx)
+    run_ownership(ctx)
     ctx.extra['functional_labels_exercised'] = len(seen_labels)
     ctx.extra['unhit_model_branches'] = sorted(t for t in MODEL_TOKENS
                                                if ('model/' + t) not in ctx.branches)
@@ -2456,6 +2458,171 @@ def run_routes(ctx):
         compare(ctx, rec, ans)
 
 
+# ---------------------------------------------------------------------------
+# stream `ownership` (round 5): every proximal factory / functional that accepts element-valued
+# arguments (sigma as element or ndarray, g, lower/upper, prior, translation, linear term, point)
+# must leave the caller's objects bitwise unchanged, and a second operator built from the SAME
+# objects must return what an operator built from fresh copies returns.
+
+OWN_POINTWISE = ('proximal_l1', 'proximal_l2_squared', 'proximal_convex_conj_l1',
+                 'proximal_convex_conj_l2_squared')
+OWN_FACTORIES = ('proximal_l1', 'proximal_l2', 'proximal_l2_squared', 'proximal_convex_conj_l1',
+                 'proximal_convex_conj_l2', 'proximal_convex_conj_l2_squared', 'proximal_convex_conj_kl',
+                 'proximal_convex_conj_kl_cross_entropy')
+
+
+def own_configs():
+    """(tag, space key, argument kinds {name: 'element'|'ndarray'|'positive-element'|...}, builder).
+    builder(space, args) -> proximal operator (args['sigma'] is a float or the caller's object)."""
+    import odl.solvers.functional.default_functionals as S
+    import odl.solvers.functional.functional as F
+    import odl.solvers.nonsmooth.proximal_operators as PO
+    out = []
+    lam = 2.0
+    for fac in OWN_FACTORIES:
+        kl = 'kl' in fac
+        for gk in ((None, 'pos') if kl else (None, 'elem')):
+            sks = ('float', 'element', 'ndarray') if (fac in OWN_POINTWISE and
+                                                      not (fac == 'proximal_convex_conj_l1' and gk)) else ('float',)
+            for sk in sks:
+                if gk is None and sk == 'float':
+                    continue        # no caller-owned object involved
+                kinds = {}
+                if gk:
+                    kinds['g'] = gk
+                if sk != 'float':
+                    kinds['sigma'] = 'pos-' + sk
+                out.append(('{}/g={}/sigma={}'.format(fac, gk or 'None', sk), 'flat', kinds,
+                            (lambda sp, a, _f=fac: getattr(PO, _f)(
+                                sp, lam=lam, **({'g': a['g']} if 'g' in a else {}))(a.get('sigma', 0.5)))))
+    for fac in ('proximal_l1_l2', 'proximal_convex_conj_l1_l2'):
+        out.append((fac + '/g=elem/sigma=float', 'power', {'g': 'elem'},
+                    (lambda sp, a, _f=fac: getattr(PO, _f)(sp, lam=lam, g=a['g'])(0.5))))
+    out += [
+        ('proximal_box_constraint/lower,upper', 'flat', {'lower': 'low', 'upper': 'high'},
+         lambda sp, a: PO.proximal_box_constraint(sp, lower=a['lower'], upper=a['upper'])(1.0)),
+        ('IndicatorBox/lower,upper', 'flat', {'lower': 'low', 'upper': 'high'},
+         lambda sp, a: S.IndicatorBox(sp, a['lower'], a['upper']).proximal(1.0)),
+        ('KullbackLeibler/prior', 'flat', {'prior': 'pos'},
+         lambda sp, a: S.KullbackLeibler(sp, prior=a['prior']).proximal(0.5)),
+        ('KullbackLeiblerConvexConj/prior', 'flat', {'prior': 'pos'},
+         lambda sp, a: S.KullbackLeiblerConvexConj(sp, prior=a['prior']).proximal(0.5)),
+        ('KullbackLeiblerCrossEntropy/prior', 'flat', {'prior': 'pos'},
+         lambda sp, a: S.KullbackLeiblerCrossEntropy(sp, prior=a['prior']).proximal(0.5)),
+        ('KullbackLeiblerCrossEntropyConvexConj/prior', 'flat', {'prior': 'pos'},
+         lambda sp, a: S.KullbackLeiblerCrossEntropyConvexConj(sp, prior=a['prior']).proximal(0.5)),
+        ('L1Norm.proximal/sigma=element', 'flat', {'sigma': 'pos-element'},
+         lambda sp, a: S.L1Norm(sp).proximal(a['sigma'])),
+        ('L2NormSquared.proximal/sigma=ndarray', 'flat', {'sigma': 'pos-ndarray'},
+         lambda sp, a: S.L2NormSquared(sp).proximal(a['sigma'])),
+        ('translated/y,sigma=element', 'flat', {'y': 'elem', 'sigma': 'pos-element'},
+         lambda sp, a: S.L1Norm(sp).translated(a['y']).proximal(a['sigma'])),
+        ('lscale/sigma=element', 'flat', {'sigma': 'pos-element'},
+         lambda sp, a: (2.0 * S.L1Norm(sp)).proximal(a['sigma'])),
+        ('rscale/sigma=element', 'flat', {'sigma': 'pos-element'},
+         lambda sp, a: (S.L1Norm(sp) * 2.0).proximal(a['sigma'])),
+        ('quad/u', 'flat', {'u': 'elem'},
+         lambda sp, a: F.FunctionalQuadraticPerturb(S.L1Norm(sp), 0.5, a['u']).proximal(0.5)),
+        ('bregman/point', 'flat', {'point': 'elem'},
+         lambda sp, a: F.BregmanDistance(S.L2NormSquared(sp), a['point'],
+                                         S.L2NormSquared(sp).gradient(a['point'])).proximal(0.5)),
+        ('proximal_translation/y', 'flat', {'y': 'elem'},
+         lambda sp, a: PO.proximal_translation(PO.proximal_l1(sp, lam=lam), a['y'])(0.5)),
+        ('proximal_quadratic_perturbation/u', 'flat', {'u': 'elem'},
+         lambda sp, a: PO.proximal_quadratic_perturbation(PO.proximal_l1(sp, lam=lam), a=0.5, u=a['u'])(0.5)),
+        ('proximal_convex_conj/sigma=element', 'flat', {'sigma': 'pos-element'},
+         lambda sp, a: PO.proximal_convex_conj(PO.proximal_l1(sp, lam=lam))(a['sigma'])),
+        ('proximal_arg_scaling/sigma=element', 'flat', {'sigma': 'pos-element'},
+         lambda sp, a: PO.proximal_arg_scaling(PO.proximal_l1(sp, lam=lam), 2.0)(a['sigma'])),
+        ('separable-sum/sigma=elements', 'sep', {'sigma0': 'pos-element', 'sigma1': 'pos-element'},
+         None)]
+    return out
+
+
+OWN_KEYS = {'flat': ('rn3', 'rn4_wconst2', 'discr4_cell0.25'), 'power': ('rn3^2', 'discr4^2_cell0.25'),
+            'sep': ('rn3',)}
+
+
+def own_branches():
+    return ['ownership/' + c[0] for c in own_configs()]
+
+
+def own_check(tag, skey, seed):
+    """Problem text or None (real code only)."""
+    import odl
+    import odl.solvers.functional.default_functionals as S
+    cfg = [c for c in own_configs() if c[0] == tag][0]
+    rng = _random.Random(seed)
+    sp = zoo()[skey]
+    kinds, builder = cfg[2], cfg[3]
+    if cfg[1] == 'sep':
+        sp = odl.ProductSpace(odl.rn(3), odl.rn(2))
+        subs = {'sigma0': sp[0], 'sigma1': sp[1]}
+        builder = lambda S_, a: S.SeparableSum(S.L1Norm(sp[0]), S.L2NormSquared(sp[1])).proximal(  # noqa
+            [a['sigma0'], a['sigma1']])
+    else:
+        subs = {}
+    n = fsize(sp)
+
+    def values(kind, m):
+        if kind.startswith('pos'):
+            return np.array(pvec(rng, m, True))
+        if kind == 'low':
+            return np.array(dvec(rng, m, -16, -1, 4))
+        if kind == 'high':
+            return np.array(dvec(rng, m, 1, 16, 4))
+        return np.array(dvec(rng, m, -16, 16, 4))
+
+    snaps = {nm: values(kd, fsize(subs.get(nm, sp))) for nm, kd in sorted(kinds.items())}
+
+    def objects():
+        return {nm: (snaps[nm].copy() if kinds[nm].endswith('ndarray')
+                     else unflat(subs.get(nm, sp), snaps[nm].copy())) for nm in snaps}
+
+    def same(obj, nm):
+        cur = obj if isinstance(obj, np.ndarray) else flat(obj)
+        return cur.tobytes() == np.asarray(snaps[nm], dtype=float).tobytes()
+
+    xs = [dvec(rng, n, -24, 24, 8), dvec(rng, n, -4, 4, 8)]
+    mine = objects()
+    try:
+        op1 = builder(sp, mine)
+        changed = [nm for nm in snaps if not same(mine[nm], nm)]
+        if changed:
+            return 'building the proximal operator modified the caller\'s argument object(s) {}: {} -> {}'.format(
+                changed, snaps[changed[0]].tolist(), (mine[changed[0]] if isinstance(mine[changed[0]], np.ndarray)
+                                                      else flat(mine[changed[0]])).tolist())
+        r1 = [flat(op1(unflat(sp, x))) for x in xs]
+        changed = [nm for nm in snaps if not same(mine[nm], nm)]
+        if changed:
+            return 'calling the proximal operator modified the caller\'s argument object(s) {}'.format(changed)
+        op2 = builder(sp, mine)                  # second operator from the SAME objects
+        r2 = [flat(op2(unflat(sp, x))) for x in xs]
+        op3 = builder(sp, objects())             # operator from fresh copies
+        r3 = [flat(op3(unflat(sp, x))) for x in xs]
+    except Exception as e:  # noqa
+        return 'raised {}: {}'.format(type(e).__name__, str(e)[:160])
+    for x, a, b, c in zip(xs, r1, r2, r3):
+        if not (np.array_equal(a, c) and np.array_equal(b, c)):
+            return ('operators built from the same argument objects disagree at x = {}: first {} second {} '
+                    'from fresh copies {}'.format(x, a.tolist()[:6], b.tolist()[:6], c.tolist()[:6]))
+    return None
+
+
+def run_ownership(ctx):
+    rng = ctx.rng
+    for tag, group, kinds, _b in own_configs():
+        for skey in OWN_KEYS[group]:
+            seed = rng.getrandbits(32)
+            ctx.case(None)
+            prob = own_check(tag, skey, seed)
+            if prob is None:
+                ctx.hit('ownership/' + tag)
+            else:
+                report(ctx, 'prox {} space={} sigma=objects check=ownership'.format(tag, skey), prob,
+                       {'spec': ['ownership', tag, skey, seed], 'space': skey, 'x_class': 'ownership'})
+
+
 def malformed_specs(rng):
     """Inadmissible parameters / step kinds: the code must raise (or take its documented guard)
     exactly where the model says so.  Outside the property's quantifier: compared, not judged."""
@@ -2556,6 +2723,8 @@ def replay(ctx, case):
     """Re-run one recorded case on the real code."""
     if 'spec' not in case:
         return None
+    if case['spec'][0] == 'ownership':
+        return own_check(case['spec'][1], case['spec'][2], case['spec'][3])
     if case['spec'][0] == 'route' and case['spec'][1] in ('noprox', 'invalid', 'projfn'):
         try:
             return route_boundary_check(case['spec'], _random.Random(case.get('boundary_seed', 0)))
